@@ -693,7 +693,7 @@ trie_notify_del(qb_map_t * m, const char *key,
 	int32_t found = QB_FALSE;
 
 	if (key) {
-		n = trie_lookup(t, key, QB_FALSE);
+		n = trie_lookup(t, key, QB_TRUE);
 	} else {
 		n = t->header;
 	}
